@@ -44,7 +44,7 @@ CLAIMS.update({
    note="Each allocation request an init makes is failed in turn (n-th request enumeration); neighbouring caller objects are watched for overruns of the failed handle."),
  "C17": dict(cat=MC, tech=TV, ref="5 C17",
    text="MC_Life.tla WipedAtFree over all interleavings; on the code the wrapped free() inspects every byte of the block as allocated before releasing it and the trace spec requires zero non-zero bytes at every cleanup, for histories that dirty every context region, per kind and back end, and with cleanup immediately after EVERY transition of the CTR and parallel machines with key-size classes (TLC state graphs Gen_Ctr_sizes / Gen_Par_sizes), so that every final context state (re-keyed long->short, buffer used up exactly, position just reset) is reached.",
-   note="The inspection happens inside free(), i.e. after the library's wipe and before release."),
+   note="The inspection happens inside free(), i.e. after the library's wipe and before release. Every call event (not only cleanup) must release object state - blocks allocated by an earlier call - with zero non-zero bytes (field nzo, checked in Frame of SkinnyTrace)."),
 })
 
 CLAIMS.update({
@@ -62,7 +62,7 @@ CLAIMS.update({
    note="Big-endian and NEON hosts cannot be run; the neutral scalar path is exercised on this little-endian host as the property scopes it."),
  "C13": dict(cat=MC, tech=TV, ref="5 C13",
    text="MC_Probe.tla: CPU models x build configurations x caps x arbitrary sub-leaf register contents, probes and cascade as coded: widest supported back end, same every time, never beyond the CPU, psize = f(back end); the as-shipped probe (sub-leaf not set) must fail. On the code every init of all six kinds is observed in many calling contexts (garbage in caller-saved registers, painted stack, fresh processes whose very first library call is each init in turn, hook-free build) and compared by TLC with Widest(env) from the harness's own CPUID/XGETBV reading.",
-   note="Only this host's CPU is observable; lesser CPUs are emulated downward by hook H2. OS-YMM support is an explicit environment assumption of the model."),
+   note="Builds observed: all back ends, no 256-bit, no 128-bit (256-bit only), no SIMD. Only this host's CPU is observable; lesser CPUs are emulated downward by hook H2. OS-YMM support is an explicit environment assumption of the model."),
  "C18": dict(cat=MC, tech=TV, ref="5 C18",
    text="MC_Threads.tla: all interleavings of 3 threads x 2 calls at footprint-step granularity: no write outside own objects, results = sequential; a static scratch buffer and an unsynchronised cached probe must fail. On the code 8-16 threads run the C01-C07/C10/C14 scenario sets concurrently on distinct objects (each per-thread trace must equal the TLC-validated sequential trace), 12-16 threads share read-only key schedules and parallel objects placed in PROT_READ memory (traces validated by TLC, any write is a crash event), and the guard-off library is required to have 0 bytes of .data/.bss.",
    note="Real interleavings are sampled by repetition; happens-before race detection is not attempted (TSan/helgrind are a different technique family)."),
